@@ -88,6 +88,31 @@ func genC10(t *rapid.T) c10Case {
 		n = 2
 	}
 	for i := 0; i < n; i++ {
+		if i > 0 && rapid.Bool().Draw(t, "same_paths") {
+			// the second root holds the same paths with files of other sizes; in a third of
+			// these cases both roots are cut down to one file, so that the last file of one root
+			// and the first file of the next have the same path
+			first := c.Trees[0]
+			if files := treeFiles(first); len(files) > 0 && rapid.IntRange(0, 2).Draw(t, "one_file") == 0 {
+				keep := rapid.SampledFrom(files).Draw(t, "kept_file")
+				var nodes []memfs.Node
+				for _, nd := range first.Nodes {
+					if nd.Path == keep || (nd.Kind == memfs.KDir && strings.HasPrefix(keep, nd.Path+"/")) {
+						nodes = append(nodes, nd)
+					}
+				}
+				first = memfs.Tree{Nodes: nodes}.Normalize()
+				c.Trees[0] = first
+			}
+			tr := memfs.Tree{Nodes: append([]memfs.Node(nil), first.Nodes...)}
+			for k := range tr.Nodes {
+				if tr.Nodes[k].Kind == memfs.KFile {
+					tr.Nodes[k].Content = strings.Repeat("w", rapid.SampledFrom([]int{0, 1, 2, 5, 9, 17, 40}).Draw(t, "other_size"))
+				}
+			}
+			c.Trees = append(c.Trees, tr)
+			continue
+		}
 		c.Trees = append(c.Trees, genTree(t, treeOpts{MaxNodes: 14, MaxDepth: 3, Gitignore: false, Symlinks: true, Special: true}))
 	}
 	c.Exts = genExts(t, c.Trees[0], 3, 0)
@@ -317,6 +342,24 @@ func propC10(c c10Case) (ev.Outcome, error) {
 	}
 	if base.Status != plugin.ScanStatusSucceeded {
 		return o, fmt.Errorf("unlimited scan failed: %s", base.Reason)
+	}
+	// The inodes a walk needs are a fact about the trees and the configuration, not about what
+	// the scanner chooses to report: the reference walk (the model C01 uses) counts them, and
+	// the unlimited scan must have reported exactly those to the stats collector.
+	modelN, specials := 0, 0
+	for _, tr := range c.Trees {
+		modelN += walkmodel.Expected(memfs.New(tr, memfs.Options{ReadDirFile: c.ReadDirFile}), c.Cfg, c.Exts).VisitedInodes
+		for _, nd := range tr.Nodes {
+			if nd.Kind == memfs.KSpecial {
+				specials++
+			}
+		}
+	}
+	if modelN != len(base.Inodes) {
+		return o, fmt.Errorf("the walk of these trees meets %d inodes (directories, files, links, special files; reference walk) but the unlimited scan counted %d: inodes that are not counted escape the inode limit; counted: %v", modelN, len(base.Inodes), base.Inodes)
+	}
+	if specials > 0 {
+		o.Classes = append(o.Classes, "tree_with_special_files")
 	}
 	var runs []c10Run
 	if len(c.Only) > 0 {
